@@ -703,16 +703,22 @@ class Object(base.Symbolic, metaclass=ObjectMeta):
             f'{self.__class__.__name__}.__init__() missing {len(missing_args)} '
             f'required {arg_phrase}: {keys_str}.')
 
-    # The same symbolic node passed for two fields: the later field gets a copy
-    # (the attribute container has no parent yet, so the write primitive cannot
-    # tell that the node is already in use).
+    # The same symbolic node handed in for several places (`A(x=d, y=d)`,
+    # `A(x=d, y=[d])`): the later places get a copy. (The attribute container has
+    # no parent yet, so the write primitive cannot tell that the node is in use.)
     seen_nodes = set()
-    for k, v in field_args.items():
+    def _copy_if_seen(v):
       if isinstance(v, base.Symbolic):
         if id(v) in seen_nodes:
-          field_args[k] = v.clone()
-        else:
-          seen_nodes.add(id(v))
+          return v.clone()
+        seen_nodes.add(id(v))
+      elif isinstance(v, list):
+        return [_copy_if_seen(x) for x in v]
+      elif isinstance(v, dict):
+        return {k: _copy_if_seen(x) for k, x in v.items()}
+      return v
+    for k in field_args:
+      field_args[k] = _copy_if_seen(field_args[k])
 
     self._set_raw_attr(
         '_sym_attributes',
